@@ -57,16 +57,21 @@ func unmarshal(r *bufio.Reader) (interface{}, error) {
 			return nil, errors.New("bencode: unknown input sequence")
 		}
 
-		buf := make([]byte, length)
-		n, err := r.Read(buf)
+		if length < 0 {
+			return nil, errors.New("bencode: negative string length")
+		}
 
-		if err != nil {
+		// Grow the buffer with the data actually received instead of trusting
+		// the length prefix.
+		var buf bytes.Buffer
+		n, err := io.CopyN(&buf, r, length)
+		if err != nil && !errors.Is(err, io.EOF) {
 			return nil, err
-		} else if int64(n) != length {
+		} else if n != length {
 			return nil, errors.New("bencode: short read")
 		}
 
-		return string(buf), nil
+		return buf.String(), nil
 	}
 }
 
